@@ -120,10 +120,9 @@ Proof. exact no_unwritten. Qed.
 
 (* ---- the values: numpy's cast of the source, in the dtype the property names ---------------- *)
 Theorem C12_from_attributes_values darg nk s0 v0 rest :
+  let d := arg_dtype darg (common_dtype s0 (map fst rest)) in      (* the dtype argument, else numpy.result_type of all *)
   from_attributes fixed darg nk ((s0, v0) :: rest)
-  = mkP (arg_dtype darg s0)
-        (map (fun sv => map (fun v => Val (arg_dtype darg s0) (cast (arg_dtype darg s0) v)) (snd sv)) ((s0, v0) :: rest))
-        false.
+  = mkP d (map (fun sv => map (fun v => Val d (cast d v)) (snd sv)) ((s0, v0) :: rest)) false.
 Proof. exact (from_attributes_fixed darg nk s0 v0 rest). Qed.
 
 (* empty coefficient list: zeros, one per exponent row *)
